@@ -1,8 +1,8 @@
 (* Syntax/Shape.v — shapes of syntax trees the round-trip statements talk about:
      * [rank]: the grammar level that produces a node,
      * [bad_pair] / [no_bad]: the parent / position / child-kind combinations for which
-       [stringify] omits parentheses the grammar needs (finding F02), as an explicit table and
-       as the formula the table was computed from,
+       [stringify] omits parentheses the grammar needs (finding F02; three associative cases are
+       left after commit 1fc9128), as an explicit table and as the formula it was computed from,
      * [glue] / [glue_free]: the places where the lexer reads two or three printed tokens as
        something else (finding F04 and relatives) — character-level effects, modelled on tokens,
      * [image]: the trees [Parser::parse] can return (parser_image), [fragment]: the node kinds
@@ -40,23 +40,14 @@ Definition not_primary (c : kind) : bool :=
   match c with KAt | KSpill => true | _ => is_binary_or_unary c end.
 
 (* [bad_pair xlsx parent position child]: the printer writes the child bare although the
-   position only accepts a tighter production.  (Pow wraps everything that needs it.) *)
+   position only accepts a tighter production.  Since commit 1fc9128 exactly three triples are
+   left, on purpose (test_stringify::correct_parenthesis): a sum on the right of "+" and a
+   concatenation on the right of "&".  The text parses to the left-nested tree: the STRUCTURE
+   changes, the VALUE does not (associativity; floating-point addition up to the last bit). *)
 Definition bad_pair (xlsx : bool) (parent : kind) (pos : position) (child : kind) : bool :=
   match parent, pos, child with
-  | KCmp, PRight, KCmp => true                                   (* 1<(2<3) *)
-  | KConcat, PLeft, KCmp => true                                 (* (1=2)&3 *)
-  | KConcat, PRight, (KCmp | KConcat) => true                    (* 1&(2=3), 1&(2&3) *)
-  | KSum _, PLeft, KConcat => true                               (* (1&2)+3 *)
-  | KSum _, PRight, KConcat => true                              (* 1+(2&3) *)
-  | KSum SAdd, PRight, KSum _ => true                            (* 1+(2-3) *)
-  | KProd, PLeft, KConcat => true                                (* (1&2)*3 *)
-  | KProd, PRight, KConcat => true                               (* 2*(1&3) *)
-  | KNeg, POnly, (KCmp | KConcat | KProd) => true                (* -(1<2), -(1&2), -(2*3) *)
-  | KPct, POnly, (KCmp | KConcat | KSum _ | KProd | KPow) => true   (* (1+2)% ... *)
-  | KRangeOp, PLeft, c => is_binary_or_unary c                   (* (1+2):A3 ... *)
-  | KRangeOp, PRight, c => if xlsx then is_binary_or_unary c else not_primary c   (* A1:(B1+1), A1:(@B1) ... *)
-  | KAt, POnly, c => negb xlsx && not_primary c                  (* @(A1:OFFSET(..)) ... *)
-  | KSpill, POnly, c => negb xlsx && not_primary c               (* (@A1:A3)# ... *)
+  | KConcat, PRight, KConcat => true                             (* 1&(2&3) prints 1&2&3 *)
+  | KSum SAdd, PRight, KSum _ => true                            (* 1+(2+3), 1+(2-3) print 1+2+3, 1+2-3 *)
   | _, _, _ => false
   end.
 
